@@ -70,7 +70,9 @@ Code(c) == CASE c = 1 -> [lines |-> <<"x">>, html |-> <<"x">>]
              [] c = 2 -> [lines |-> <<"*not em* <b> &amp;", "", "  y">>, html |-> <<"*not em* &lt;b&gt; &amp;amp;", "", "  y">>]
              [] c = 3 -> [lines |-> <<"``` ~~~ [l]: /u", "# h">>, html |-> <<"``` ~~~ [l]: /u", "# h">>]
              [] c = 4 -> [lines |-> <<" x", " x", " x", " ```">>, html |-> <<" x", " x", " x", " ```">>]      \* a fence-like line behind indented lines
-NCode == 4
+             \* a line of spaces only is content, not a blank line (outside list items, where the parser reads such a line as empty)
+             [] c = 5 -> [lines |-> <<"x", "  ", "y">>, html |-> <<"x", "  ", "y">>]
+NCode == 5
 Html(h) == CASE h = 1 -> <<"<div>", "raw *x*", "</div>">>
              [] h = 2 -> <<"<!-- c", "", "*y* -->">>
              [] h = 3 -> <<"<pre>", "", "    z", "</pre>">>
@@ -272,11 +274,11 @@ FmtText(roots, c) == LET st == FmtState(roots, c) IN
 
 \* ------------------------------------------------------------------ generator machine
 \* C20 (second clause): the supported construct set fixed in DESIGN.md section C20 - no tabs, LF only, no <...> destinations
-\* (snippet 7), and inside a quote or list item no emphasis / link / code span / raw tag that contains a line ending
-\* (snippets 15, 16, 17, 20: the formatter copies their source verbatim and re-indents it).
+\* (snippet 7), and inside a quote or list item no emphasis / code span / raw tag that contains a line ending
+\* (snippets 16, 17: the formatter copies their source verbatim and re-indents it).
 FmtMode == LeafSet \in {"fstructure", "finline", "fcode"}
 FmtInl == (1..NInl) \ {7, 27}      \* 7: <...> destination; 27: destination and title that need escapes (outside the supported set of DESIGN.md C20)
-MultiLineVerbatim(i) == i \in {15, 16, 17, 20, 28}
+MultiLineVerbatim(i) == i \in {16, 17}      \* code span, raw tag (links / references with line endings in text, destination, title are re-assembled: supported)
 Leaves ==
   CASE LeafSet \in {"structure", "fstructure"} -> {<<"para", 1, <<>>>>, <<"para", 2, <<>>>>, <<"atx", <<2, 1>>, <<>>>>, <<"setext", <<1, 2>>, <<>>>>, <<"hr", 0, <<>>>>,
                                  <<"fence", <<TRUE, 2>>, <<>>>>, <<"icode", 1, <<>>>>, <<"html", 1, <<>>>>}
@@ -317,6 +319,7 @@ CanAddLeaf(l) ==
   /\ (l[1] = "icode" /\ Top.kind = "li" => Top.kids # <<>>)             \* indented code is not the first block of an item
   /\ (l[1] = "icode" /\ Top.kids # <<>> => Top.kids[Len(Top.kids)][1] \notin {"icode", "ul", "ol"})   \* would merge with the previous code block / continue the previous list item
   /\ (l[1] = "html" /\ l[2] = 3 => ~InList /\ Top.kind = "doc")         \* <pre> with indented content only at the root
+  /\ (l[1] = "icode" => l[2] # 5) /\ (l[1] = "fence" /\ l[2][2] = 5 => ~InList)   \* the line of spaces: fenced code outside list items
   /\ (FmtMode /\ Len(stack) > 1 /\ l[1] = "para" => ~MultiLineVerbatim(l[2]))
   /\ (FmtMode /\ Len(stack) > 1 /\ l[1] \in {"atx", "setext"} => ~MultiLineVerbatim(l[2][2]))
 AddLeaf == /\ n < MaxNodes
